@@ -213,6 +213,10 @@ void mp::internal::TextReader<Locale>::ReadHeader(NLHeader &header) {
       ReadOptionalUInt(header.num_eqns)) {
       ReadOptionalUInt(header.num_logical_cons);
   }
+  // The sum is used as the number of constraints (e.g., for suffixes).
+  if (header.num_logical_cons >
+      std::numeric_limits<int>::max() - header.num_algebraic_cons)
+    ReportError("too many constraints");
   ReadTillEndOfLine();
 
   // Read the nonlinear and complementarity information.
@@ -223,6 +227,9 @@ void mp::internal::TextReader<Locale>::ReadHeader(NLHeader &header) {
       ReadOptionalUInt(header.num_nl_compl_conds) &&
       ReadOptionalUInt(header.num_compl_dbl_ineqs) &&
       ReadOptionalUInt(header.num_compl_vars_with_nz_lb);
+  if (header.num_nl_compl_conds >
+      std::numeric_limits<int>::max() - header.num_compl_conds)
+    ReportError("too many complementarity conditions");
   header.num_compl_conds += header.num_nl_compl_conds;
   if (header.num_compl_conds > 0 && !all_compl)
     header.num_compl_dbl_ineqs = -1;
